@@ -33,6 +33,10 @@ def start_rtc(jobs, tier, seed, out_path, budget=None):
     env = dict(os.environ)
     env['PYTHONPATH'] = HERE
     env.setdefault('MPLBACKEND', 'Agg')
+    cj = os.path.join(HERE, 'evidence', '.contracts.json')
+    if any(j.startswith('armed') for j in jobs):
+        unitmod.export_all(cj)
+    env['VF_CONTRACTS_JSON'] = cj
     return subprocess.Popen(cmd, cwd=HERE, env=env, stdout=subprocess.PIPE, stderr=subprocess.PIPE, text=True)
 
 
@@ -64,7 +68,7 @@ def write_replay(pid, n, doc):
 def do_replay(path):
     with open(path) as f:
         doc = json.load(f)
-    if doc.get('job'):
+    if doc.get('job') or doc.get('kind') == 'model':
         env = dict(os.environ)
         env['PYTHONPATH'] = HERE
         r = subprocess.run([VENV_PY, '-m', 'rtc.run', '--replay', path], cwd=HERE, env=env, text=True,
@@ -220,6 +224,33 @@ def main():
     violations = []
     known_lines = []
     nrep = 0
+    # ---------------- replay solver counter-models on the real code
+    model_replays = []
+    for o in open_obs:
+        if o.get('replay_args') is None or len(model_replays) >= 12:
+            continue
+        doc = {'kind': 'model', 'property': pid, 'unit': o['unit'], 'obligation': o['name'], 'solver': o.get('backend'),
+               'args': o['replay_args'], 'contract': o['replay_case'], 'solver_output': (o.get('model') or '')[:1500],
+               'replay_cmd': './check %s --replay <this file>' % pid}
+        path = write_replay(pid, 900 + len(model_replays), doc)
+        env = dict(os.environ)
+        env['PYTHONPATH'] = HERE
+        r = subprocess.run([VENV_PY, '-m', 'rtc.run', '--replay', path], cwd=HERE, env=env, text=True, capture_output=True)
+        verdict = {0: 'passes', 1: 'fails', 4: 'skipped'}.get(r.returncode, 'error')
+        model_replays.append({'obligation': o['name'], 'verdict': verdict, 'output': r.stdout.strip()[-300:]})
+        o['model_replay'] = verdict
+        if r.returncode == 1:
+            sig = json.dumps({'unit': o['unit'], 'obligation': o['name']}, sort_keys=True)
+            k = matches_known(known, pid, sig)
+            if k:
+                known_lines.append('KNOWN-FINDING: property=%s %s' % (pid, k.get('what', k['match'])))
+            else:
+                violations.append((path, {'what': 'counter-model of %s replays on the real code: %s' % (o['name'], r.stdout.strip()[-250:])}, ''))
+        else:
+            try:
+                os.unlink(path)
+            except OSError:
+                pass
     for f in failures:
         sig = json.dumps(f, sort_keys=True, default=str)
         k = matches_known(known, pid, sig)
@@ -231,7 +262,7 @@ def main():
         path = write_replay(pid, nrep, dict(f, property=pid, failed_obligations=related,
                                             replay_cmd='./check %s --replay <this file>' % pid))
         violations.append((path, f, ''))
-    if not failures:
+    if not failures and not violations:
         for o in open_obs:
             # a definite counter-model for an obligation whose falsification replay cannot force
             if o['status'] == 'sat' and o['kind'] in cfg.get('no_input_kinds', ()):
@@ -297,6 +328,7 @@ def main():
                                                 'truncated', 'wall_s', 'escalated')} for r in rtc_results],
         'bounded_note': 'bounded jobs are stand-ins / cross-checks; they contribute nothing to "discharged"',
         'canaries': canaries,
+        'model_replays': model_replays,
         'evaluations': max(evals, 1) if rtc_results else n_ob,
         'distinct_nontrivial': nontriv if rtc_results else len({o['name'] for o in obligations}),
         'rule': 'obligations: one per named verification condition generated from the current /repo sources; '
